@@ -30,6 +30,8 @@ def aligned(scores, labels, base_s, base_l):
 
 
 def run(ctx, chk, tier):
+    from . import c01 as _c01
+    _c01.flag_identity(ctx, chk)   # direction flags: identity comparisons need BinaryLabel members on every construction path
     chk.rule_text = ("alignment obligations: one per (class, construction site) pair (scores, labels) in __init__, from_labels, swap and every bootstrap_sample path; "
                      "per-group extraction, group_cm/groupwise stacking order, name list, by-group sampler; non-trivial = index term derived from the source")
     chk.explanation = ("Alignment is a typestate over derived terms: (scores, labels) stay attached when both are the same index transformation of an aligned base pair. "
